@@ -247,3 +247,13 @@ Example C07_select_example :
   | inr _ => False
   end.
 Proof. vm_compute. repeat split. Qed.
+
+(* ---- DeltaSelector.deltaSizeLimit is regenerated from delta_selector.go on every run
+   (Gen/C07.v, with Go's int64 wrap-around explicit): on every argument the selector
+   can pass it is the model's delta_size_limit *)
+From GoGit Require Import Base.GoInt Gen.C07 Proofs.C07Leaf.
+Theorem C07_delta_size_limit_tied : forall n bd td isd,
+  (0 <= n < 2 ^ 50)%Z -> (0 <= bd <= pk7_maxDepth)%Z -> (0 <= td < 2 ^ 31)%Z ->
+  pk7_DeltaSelector_deltaSizeLimit n bd td isd = delta_size_limit n bd td isd.
+Proof. exact deltaSizeLimit_gen_spec. Qed.
+Print Assumptions C07_delta_size_limit_tied.
